@@ -147,6 +147,22 @@ func (ld *Loaded) verifyFunc(fn *ssa.Function) (res *FuncResult) {
 		a0 := ex.entry.alloc()
 		for _, k := range keys {
 			srt := st.sorts[k]
+			if strings.HasPrefix(k, "V:") && srt.K == KArray {
+				// map values that are references: V[m][k1]..[kn] <= alloc@0
+				var bs []*Term
+				t := Var(k+"@0", srt)
+				cur := srt
+				for cur.K == KArray && len(bs) < 6 {
+					b := BoundVar("wfk", cur.A)
+					bs = append(bs, b)
+					t = Select(t, b)
+					cur = cur.B
+				}
+				if cur == IntS {
+					axioms = append(axioms, Forall(bs, IntLe(t, a0)))
+				}
+				continue
+			}
 			if !(strings.HasPrefix(k, "H:") || strings.HasPrefix(k, "M:")) || srt.K != KArray {
 				continue
 			}
